@@ -781,7 +781,7 @@ M('rolllog-tail-dropped-but-not-put-back', ['C13'], RL, "                    rea
 M('cli-D78-shape-http-output-port-not-reserved', ['C12'], CLI, "        for output in outputs:\n            if isinstance(output, str) and not is_mq_addr(output) and (m := RE_URL_PORT.match(output)):  # Webvis' 'http://0.0.0.0:5550'\n                max_port = max(max_port, int(m.group(1)))\n\n", "", ['C12.R13'])
 M('cli-D78-shape-port-option-not-reserved', ['C12'], CLI, "        if isinstance(port := config.get(\"port\"), int) and not isinstance(port, bool):  # the http server port of Webvis / REST given as an option\n            max_port = max(max_port, port)\n", "", ['C12.R13'])
 M('zmq-D80-shape-empty-topic-accepted', ['C02', 'C03', 'C09'], Z, "            if '' in topicmsgs:  # its frame would be the same bytes as the topics message that closes a set: a receiver takes it for that, the set never completes and every set after it is lost as well\n                raise ValueError(\"a topic name can not be empty\")\n\n", "", ['C02.R5', 'C03.R11', 'C09.R14'])
-M('zmq-D82-shape-unlink-by-name', ['C06'], Z, "                        if os.stat(fnm).st_ino == self.ipc_inodes.get(fnm):  # still the file we bound, not the one of a new instance on this address\n                            os.unlink(fnm)\n", "                        os.unlink(fnm)\n", ['C06.R17'])
+M('zmq-D82-shape-unlink-by-name', ['C06'], Z, "                        if ((st := os.stat(fnm)).st_ino, st.st_ctime_ns) == self.ipc_inodes.get(fnm):  # still the file we bound, not the one of a new instance on this address\n                            os.unlink(fnm)\n", "                        os.unlink(fnm)\n", ['C06.R17'])
 
 M('zmq-D83-shape-close-keeps-balanced-lock', ['C06'], Z, "                                if balance:  # the half set was what locked the balanced receiver onto this source, the others are listened to again\n                                    for s in sendervs:\n                                        if s.sub not in poller:\n                                            poller.register(s.sub, zmq.POLLIN)\n", "", ['C06.R18'])
 M('zmq-D83-shape-entry-keeps-balanced-lock', ['C06'], Z, "                    if s.sub not in poller:\n                        poller.register(s.sub, zmq.POLLIN)  # was unregistered when it completed, or when", "                    if s.got_all:\n                        poller.register(s.sub, zmq.POLLIN)  # was unregistered when it completed, or when", ['C06.R18'])
@@ -827,7 +827,7 @@ M('d96-telemetry-provider-left-running', ['C16'], F, "                provider.s
 M('d97-model-info-added-after-the-masking', ['C15'], F, "            facets['models'] = hide_uri_users_and_pwds_deep(FilterContext.get_model_info())  #", "            facets['models'] = FilterContext.get_model_info()  #", ['C15.R1'])
 M('sweep12-got-partial-and-empty-swapped', ['C01'], Z, "                'none' if c == len(recvd) else", "                'none' if c != len(recvd) else", ['C01.R19'])
 M('sweep12-got-all-when-something-is-missing', ['C01'], Z, "                'all'  if not (c := sum(v is None for v in recvd.values())) else", "                'all'  if (c := sum(v is None for v in recvd.values())) else", ['C01.R19'])
-M('sweep12-ipc-files-removed-when-they-are-NOT-ours', ['C06'], Z, "if os.stat(fnm).st_ino == self.ipc_inodes.get(fnm):", "if os.stat(fnm).st_ino != self.ipc_inodes.get(fnm):", ['C06.R17'])
+M('sweep12-ipc-files-removed-when-they-are-NOT-ours', ['C06'], Z, "if ((st := os.stat(fnm)).st_ino, st.st_ctime_ns) == self.ipc_inodes.get(fnm):", "if ((st := os.stat(fnm)).st_ino, st.st_ctime_ns) != self.ipc_inodes.get(fnm):", ['C06.R17'])
 M('sweep12-ephemeral-level-subtracts', ['C05'], Z, "if (ephemeral := addr_connect.endswith('?') + addr_connect.endswith('??')):", "if (ephemeral := addr_connect.endswith('?') - addr_connect.endswith('??')):", ['C05.R15'])
 M('sweep12-doubly-ephemeral-gets-a-request-socket', ['C05'], Z, "push = context.socket(zmq.PUSH) if ephemeral < 2 else None", "push = context.socket(zmq.PUSH) if ephemeral <= 2 else None", ['C05.R15'])
 M('sweep12-doubly-ephemeral-is-sent-requests', ['C05'], Z, "            if self.ephemeral < 2:  # do not anything to doubly-ephemeral channels", "            if self.ephemeral <= 2:  # do not anything to doubly-ephemeral channels", ['C05.R15'])
@@ -841,3 +841,8 @@ M('sweep13-short-colour-digits-not-doubled', ['C17'], UT, "(int(c[0] * 2, 16), i
 M('seed13-C15-timeout-line-keeps-the-raw-bind-address', ['C15'], Z, """@ {hide_uri_users_and_pwds(self.pull2addr.get(pull, "???"))}  (timeout)')""", """@ {self.pull2addr.get(pull, "???")}  (timeout)')""", ['C15.R1'])
 M('seed13-C16-shape-allow-list-cached-per-process', ['C16'], CF, "def read_allowlist() -> Set[str]:", "@__import__('functools').cache\ndef read_allowlist() -> Set[str]:", ['C16.R14'])
 M('seed13-C03-shape-missing-target-keeps-the-source-name', ['C03'], F, "topics = [tuple([t.strip() or default_topic for t in s.strip().split('>')] * 2)[:2] for s in topics]", "topics = [((p := [t.strip() for t in s.split('>')])[0] or default_topic, (p[1] if len(p) > 1 and p[1] else p[0] or default_topic)) for s in topics]", ['C03.R20'])
+M('d99-ipc-file-recognised-by-inode-number-alone', ['C06'], Z, "if ((st := os.stat(fnm)).st_ino, st.st_ctime_ns) == self.ipc_inodes.get(fnm):", "if (os.stat(fnm).st_ino, self.ipc_inodes.get(fnm, (0, 0))[1]) == self.ipc_inodes.get(fnm):", ['C06.R17'])
+M('d98-metrics-output-port-not-reserved', ['C12'], CLI, '        if isinstance(outputs_metrics := config.get("outputs_metrics"), str) and (m := RE_URL_PORT.match(outputs_metrics)):  # the dedicated metrics output binds its own pair of ports\n            max_port = max(max_port, int(m.group(1)))\n', '', ['C12.R13'])
+M('sweep13-end-position-not-taken-after-the-search', ['C13'], RL, "                    at = start\n\n                read_file.seek(at)\n", "                    at = start\n\n                pass\n", ['C13.R16'])
+M('sweep13-end-search-goes-on-past-a-found-delimiter', ['C13'], RL, "                        at = start + cut\n\n                        break\n", "                        at = start + cut\n", ['C13.R16'])
+M('sweep13-end-position-before-the-delimiter', ['C13'], RL, "if (cut := read_file.read(at - start).rfind(b'\\n') + 1):", "if (cut := read_file.read(at - start).rfind(b'\\n') - 1):", ['C13.R16'])
